@@ -13,6 +13,21 @@ def fill_spec(arr):
     return cur
 
 
+def fill_pointwise(arr):
+    """the positional rendering FP/H of contracts/c03_merge.py, executable: FP(k+1, p) from FP(k, .) and the hole count H(k, p)"""
+    cur = list(arr[0])                      # FP(1, .)
+    for k in range(1, len(arr)):
+        h, nxt = 0, []
+        for p in range(len(cur)):           # h == H(k, p)
+            if cur[p] is not None:
+                nxt.append(cur[p])
+            else:
+                nxt.append(arr[k][h] if h < len(arr[k]) else cur[p])
+                h += 1
+        cur = nxt
+    return cur
+
+
 def check_merge_projections(ctx):
     """exhaustive over the language's domain: the first list has 1..3 entries (x,y,z) with at least one hole, followed
     by up to 3 further argument lists whose length is at most the number of open holes (the parser never supplies more
@@ -53,6 +68,9 @@ def check_merge_projections(ctx):
             except Exception as e:
                 got = f"raised {type(e).__name__}: {e}"
             want = fill_spec(arr)
+            if not same_lists(fill_pointwise(arr), want):
+                bad = dict(arr=repr(arr), got='(specification renderings disagree) ' + repr(fill_pointwise(arr)), want=repr(want))
+                return
             if not same_lists(got, want):
                 bad = dict(arr=repr(arr), got=repr(got), want=repr(want))
                 return
